@@ -1132,3 +1132,8 @@ add("C01", "existing-rules-expression-put-under-a-star", DGI,
 add("C01", "benign-name-put-under-a-star", DGI,
     [("                    case cst.List():\n                        # does it have any introspection rule", "                    case cst.Name() | cst.Call():\n                        nodes_to_change[resolved] = cst.List(elements=[cst.StarredElement(value=resolved), cst.Element(value=cst.Name(\"NoSchemaIntrospectionCustomRule\"))])\n                    case cst.List():\n                        # does it have any introspection rule")],
     "silent")
+CA = "codemodder/codemods/check_annotations.py"
+add("C06", "comment-gathering-visitor-kept-between-walks", CA,
+    [("    visitor = _GatherCommentNodes(metadata, messages)\n    node.visit(visitor)\n    return visitor.is_disabled_by_linter(node)",
+      "    return _Checker.shared(metadata, messages).check(node)\n\n\nclass _Checker:\n    _one = None\n\n    def __init__(self, metadata, messages):\n        self._visitor = _GatherCommentNodes(metadata, messages)\n\n    @classmethod\n    def shared(cls, metadata, messages):\n        if cls._one is None:\n            cls._one = cls(metadata, messages)\n        return cls._one\n\n    def check(self, node):\n        node.visit(self._visitor)\n        return self._visitor.is_disabled_by_linter(node)")],
+    "fire", "R-FRESH-VISITOR", "check")
